@@ -1,5 +1,5 @@
 (* Unimock.Proofs.Conc -- Layer B: invariants over ALL schedules. *)
-From Unimock Require Import Model.Conc Spec.FirstMatch Proofs.Core Proofs.C01 Proofs.C02.
+From Unimock Require Import Model.Conc Model.Verify Spec.FirstMatch Proofs.Core Proofs.C01 Proofs.C02.
 From Coq Require Import Permutation.
 Open Scope N_scope.
 
@@ -564,6 +564,28 @@ Proof.
   cbn zeta. pose proof (sequential_equivalence sched callss) as H.
   destruct (run_sched sched _) as [g ths]. cbn [fst snd]. destruct H as (_ & Hn & Hc).
   intros Hd. split; [exact Hn|]. intros m i. rewrite <- (Hc m i), (done_owes_nothing ths m i Hd). lia.
+Qed.
+
+(* ---------- the count half of the verdict after the join is the sequential one ---------- *)
+Lemma verify_pats_ext m (c c' : nat -> N) ps : forall i, (forall j, c j = c' j) ->
+  verify_pats info m c ps i = verify_pats info m c' ps i.
+Proof.
+  induction ps as [|p ps IH]; intros i H; cbn [verify_pats]; [reflexivity|].
+  rewrite (IH (S i) H), (H i). reflexivity.
+Qed.
+
+Lemma verify_all_ext s s' : (forall m i, cnt s m i = cnt s' m i) -> verify_all info cfg s = verify_all info cfg s'.
+Proof.
+  intros H. unfold verify_all. induction (c_table cfg) as [|[m mk] t IH]; cbn [flat_map]; [reflexivity|].
+  rewrite IH. f_equal. unfold verify_mocker. now rewrite (verify_pats_ext m (cnt s m) (cnt s' m) (m_pats mk) 0 (H m)).
+Qed.
+
+Corollary joined_count_verdict_is_sequential sched callss :
+  let st := run_sched sched (init_glob, map (fun cs => advance cs []) callss) in
+  all_done A (snd st) = true ->
+  verify_all info cfg (g_state (fst st)) = verify_all info cfg (run_hist init_state (g_order (fst st))).
+Proof.
+  cbn zeta. intros Hd. destruct (joined_equals_sequential sched callss Hd) as [_ Hc]. apply verify_all_ext. exact Hc.
 Qed.
 
 (* ---------- (T4) a single-use value has exactly one owner: the request that emptied its first slot ---------- *)
